@@ -125,11 +125,12 @@ pub trait Property: Sync {
     fn exhaustive_note(&self, _tier: Tier) -> Option<String> {
         None
     }
-    /// Some((rule, seconds)) if the property itself asserts termination: an execution that makes no
-    /// progress for that long, outside the reach of the simulated step clock, is then a violation of
-    /// that rule rather than a harness error.
+    /// (rule, seconds): every property presupposes that the operation under test returns. If no run
+    /// completes for that long while a worker is inside `execute` (generators are excluded), the run in
+    /// flight is reported as a violation of that rule, with its trace as the replay file. Runs take
+    /// milliseconds; the threshold is minutes. C12, which states termination, uses its own rule name.
     fn stall_is_violation(&self) -> Option<(&'static str, u64)> {
-        None
+        Some(("R0-operation-returns", 300))
     }
     /// evidence-only extras computed from the aggregated observations
     fn extra_evidence(&self, _agg: &Agg) -> Value {
@@ -206,6 +207,7 @@ pub struct Agg {
     pub known_hits: BTreeMap<usize, (u64, u64, String)>, // entry -> (count, lowest run, detail of lowest)
     pub unlisted: u64,
     pub first_unlisted: Option<(u64, usize)>, // (run index, failure index within run)
+    pub unlisted_list: BTreeSet<(u64, usize)>, // the smallest few, in case the first does not reproduce in isolation
     pub per_run_digests: Vec<(u64, u64)>,
     /// VERIF_SURVEY: histogram of unlisted failures by (rule, facts) with one example each
     pub survey: BTreeMap<String, (u64, String)>,
@@ -272,6 +274,11 @@ impl Agg {
             (Some(a), Some(b)) => Some(a.min(b)),
             (a, b) => a.or(b),
         };
+        self.unlisted_list.extend(o.unlisted_list);
+        while self.unlisted_list.len() > 64 {
+            let last = *self.unlisted_list.iter().next_back().unwrap();
+            self.unlisted_list.remove(&last);
+        }
         self.per_run_digests.extend(o.per_run_digests);
         for (k, (c, d)) in o.survey {
             let e = self.survey.entry(k).or_insert((0, d));
@@ -406,6 +413,7 @@ pub fn run_check<P: Property>(p: &P, st: &Settings) -> i32 {
     let samples: Mutex<BTreeMap<u64, Value>> = Mutex::new(BTreeMap::new());
     let chunk = 16u64;
     let survey = std::env::var_os("VERIF_SURVEY").is_some();
+    let careful_dir: Option<PathBuf> = std::env::var_os("VERIF_CAREFUL_DIR").map(PathBuf::from);
 
     // harness stall guard: a run that makes no progress for 10 minutes is a harness error (exit 2),
     // never a verdict. (Code under test that fails to terminate is caught by the simulated step
@@ -413,6 +421,7 @@ pub fn run_check<P: Property>(p: &P, st: &Settings) -> i32 {
     let completed = AtomicU64::new(0);
     let finished = AtomicBool::new(false);
     let in_flight: Vec<AtomicU64> = (0..st.workers).map(|_| AtomicU64::new(u64::MAX)).collect();
+    let executing: Vec<AtomicBool> = (0..st.workers).map(|_| AtomicBool::new(false)).collect();
     let worker_ids = AtomicU64::new(0);
     let aggs: Vec<Agg> = std::thread::scope(|sc| {
         sc.spawn(|| {
@@ -431,7 +440,8 @@ pub fn run_check<P: Property>(p: &P, st: &Settings) -> i32 {
                 } else {
                     idle += 1;
                     if idle > limit_halfsecs {
-                        let stuck = in_flight.iter().map(|a| a.load(Ordering::Relaxed)).min().unwrap_or(u64::MAX);
+                        // only workers that are inside `execute` count: a stuck generator is a harness error
+                        let stuck = in_flight.iter().zip(executing.iter()).filter(|(_, e)| e.load(Ordering::Relaxed)).map(|(a, _)| a.load(Ordering::Relaxed)).min().unwrap_or(u64::MAX);
                         if let (Some((rule, secs)), true) = (p.stall_is_violation(), stuck != u64::MAX) {
                             // the trace is a pure function of (seed, run): write the replay file without executing it
                             let mut rng = Rng::for_run(st.seed, id, stuck);
@@ -469,13 +479,21 @@ pub fn run_check<P: Property>(p: &P, st: &Settings) -> i32 {
                         }
                         for run in start..(start + chunk).min(n) {
                             in_flight[me].store(run, Ordering::Relaxed);
+                            if let Some(dir) = &careful_dir {
+                                // careful mode (after the process died once): leave a trail on disk so that the
+                                // run in flight when the process dies can be identified
+                                let _ = std::fs::write(dir.join(format!("w{}", me)), format!("{}\n", run));
+                            }
                             let mut rng = Rng::for_run(st.seed, id, run);
                             let r = catch(|| {
                                 let trace = p.generate(&mut rng, st.tier, run);
+                                executing[me].store(true, Ordering::Relaxed);
                                 let mut obs = Obs::default();
                                 let fails = p.execute(&trace, &mut obs);
+                                executing[me].store(false, Ordering::Relaxed);
                                 (trace, obs, fails)
                             });
+                            executing[me].store(false, Ordering::Relaxed);
                             let (trace, obs, fails) = match r {
                                 Ok(x) => x,
                                 Err(m) => {
@@ -516,6 +534,9 @@ pub fn run_check<P: Property>(p: &P, st: &Settings) -> i32 {
                                         } else {
                                             let cand = (run, fi);
                                             agg.first_unlisted = Some(agg.first_unlisted.map_or(cand, |c| c.min(cand)));
+                                            if agg.unlisted_list.len() < 64 {
+                                                agg.unlisted_list.insert(cand);
+                                            }
                                             stop.store(true, Ordering::Relaxed);
                                         }
                                     }
@@ -564,16 +585,37 @@ pub fn run_check<P: Property>(p: &P, st: &Settings) -> i32 {
     // 4. violation: minimise, write replay
     let mut exit = 0;
     let mut violation_info = Value::Null;
-    if let Some((run, fi)) = agg.first_unlisted {
-        let mut rng = Rng::for_run(st.seed, id, run);
-        let trace = p.generate(&mut rng, st.tier, run);
-        let mut obs = Obs::default();
-        let fails = p.execute(&trace, &mut obs);
-        if fi >= fails.len() {
-            eprintln!("HARNESS-ERROR: run {} did not reproduce in-process (nondeterministic harness?)", run);
-            return 2;
+    if agg.first_unlisted.is_some() {
+        // Re-execute in isolation. A failure that does not reproduce on its own depends on what the same thread
+        // executed before it - state carried across operations by the code under test (the harness keeps none: see
+        // the determinism proof) - so the next candidates are tried; the one reported must replay from its file.
+        let mut chosen = None;
+        let mut skipped = 0usize;
+        for &(run, fi) in agg.unlisted_list.iter() {
+            let mut rng = Rng::for_run(st.seed, id, run);
+            let trace = p.generate(&mut rng, st.tier, run);
+            let mut obs = Obs::default();
+            let fails = match catch(|| p.execute(&trace, &mut obs)) {
+                Ok(f) => f,
+                Err(_) => vec![],
+            };
+            if let Some(f) = fails.iter().find(|f| known.classify(id, f).is_none()) {
+                let _ = fi;
+                chosen = Some((run, trace, f.clone()));
+                break;
+            }
+            skipped += 1;
         }
-        let f0 = fails[fi].clone();
+        let (run, trace, f0) = match chosen {
+            Some(x) => x,
+            None => {
+                eprintln!("HARNESS-ERROR: {} failing run(s) were observed in the batch but none reproduces when re-executed alone: the outcome depends on what the thread executed before (state carried across operations); no replayable violation can be reported", skipped);
+                return 2;
+            }
+        };
+        if skipped > 0 {
+            println!("note: {} earlier failing run(s) did not reproduce in isolation (history-dependent); reporting the first that does", skipped);
+        }
         let (min_trace, min_fail, shrink_execs) = minimise(p, &known, &trace, &f0);
         let dir = st.verif_dir.join("replays");
         let _ = std::fs::create_dir_all(&dir);
@@ -818,4 +860,30 @@ pub fn repo_head() -> String {
         .map(|o| !o.stdout.is_empty())
         .unwrap_or(false);
     format!("{}{}", head, if dirty { "+dirty" } else { "" })
+}
+
+/// Write run `run`'s trace to `path` as a replay file (rule R0-process-survives), then execute it alone.
+/// If the code under test kills the process, the file is already there for the caller to report.
+pub fn exec_run<P: Property>(p: &P, st: &Settings, run: u64, path: &Path) -> i32 {
+    let id = p.id();
+    let mut rng = Rng::for_run(st.seed, id, run);
+    let trace = p.generate(&mut rng, st.tier, run);
+    let doc = json!({"property": id, "rule": "R0-process-survives", "verif_seed": st.seed, "run": run, "tier": st.tier.name(),
+        "trace": serde_json::to_value(&trace).unwrap_or(Value::Null),
+        "detail": "executing this trace makes the process die (abort / signal: allocation failure, stack overflow, ...) inside the code under test; not minimised",
+        "repo_head": repo_head()});
+    if let Err(e) = std::fs::write(path, serde_json::to_string_pretty(&doc).unwrap()) {
+        eprintln!("HARNESS-ERROR: cannot write {}: {}", path.display(), e);
+        return 2;
+    }
+    let mut obs = Obs::default();
+    let fails = match catch(|| p.execute(&trace, &mut obs)) {
+        Ok(f) => f,
+        Err(m) => {
+            eprintln!("HARNESS-ERROR: run {} panicked outside an operation boundary: {}", run, m);
+            return 2;
+        }
+    };
+    println!("exec-run {} run {}: executions={} failures={}", id, run, obs.execs, fails.len());
+    0
 }
